@@ -278,17 +278,44 @@ Definition ok_command (_ : N) (_ : list N) : outcome unit := Ok tt.
 Definition ok_text (inp : list N) : outcome (list N) := Ok [].
 Definition ok_text_conn (_ : list N) : outcome unit := Ok tt.
 
-(* LOCK frame, flag 0x20 (contains data), followed by a data frame that declares length 0 *)
-Definition witness_short_frame : list N :=
-  [86; 1; 1] ++ repeat 0 16 ++ [32; 0] ++ repeat 0 43 ++ [0; 0; 0; 0].
+(* LOCK frame with flag 0x20 (contains data); the data frame that follows declares length 0 *)
+Definition witness_lock_frame : list N := [86; 1; 1] ++ repeat 0 16 ++ [32; 0] ++ repeat 0 43.
+Definition witness_short_data : list N := [0; 0; 0; 0].
 
-Lemma short_frame_crashes fx cap :
-  fx_short_frame fx = false ->
-  snd (handle_conn fx cap (fun _ => true) ok_engine ok_engine ok_call ok_command ok_text ok_text_conn 64 witness_short_frame) = EndCrash.
+Lemma read_zero_frame cap : read_bytes_frame cap witness_short_data = Ok ([0; 0; 0; 0], []).
 Proof.
-  intros F. destruct fx as [a b c]; cbn in F; subst a.
-  destruct b, c; vm_compute; reflexivity.
+  unfold read_bytes_frame, witness_short_data.
+  change (take 4 [0; 0; 0; 0]) with (@Ok (list N * list N) ([0; 0; 0; 0], [])). cbn [bind].
+  change (idx [0; 0; 0; 0] 0) with (@Ok N 0). change (idx [0; 0; 0; 0] 1) with (@Ok N 0).
+  change (idx [0; 0; 0; 0] 2) with (@Ok N 0). change (idx [0; 0; 0; 0] 3) with (@Ok N 0). cbn [bind].
+  change (le32 0 0 0 0) with 0.
+  destruct (cap <? 0) eqn:E; [apply N.ltb_lt in E; lia|]. reflexivity.
 Qed.
+Lemma parse_short_data_panics fx cap : fx_short_frame fx = false -> parse_lock_data fx cap witness_short_data = Panic.
+Proof.
+  intros F. unfold parse_lock_data. rewrite read_zero_frame. cbn [bind].
+  rewrite new_lock_data_unfixed; auto. cbn. lia.
+Qed.
+
+(* one LOCK frame + a 4-byte data frame = 68 bytes kill the process in the unrepaired code, for every cap *)
+Lemma short_frame_crashes fx cap dbe :
+  fx_short_frame fx = false ->
+  process_parse fx cap dbe ok_engine ok_engine ok_call ok_command ok_text witness_lock_frame witness_short_data = Crash.
+Proof.
+  intros F. pose proof (parse_short_data_panics fx cap F) as P.
+  unfold process_parse, parse_lock_branch.
+  change (len witness_lock_frame <? 64) with false. cbv iota.
+  change (idx witness_lock_frame 0) with (@Ok N 86). change (idx witness_lock_frame 1) with (@Ok N 1).
+  change (idx witness_lock_frame 2) with (@Ok N 1). cbn [lift_step].
+  change (negb (86 =? 86)) with false. change (negb (1 =? 1)) with false. change (1 =? 1) with true. cbv iota.
+  set (dl := decode_lock witness_lock_frame). vm_compute in dl. subst dl. cbn [lift_step c_flag].
+  change (has 32 32) with true. cbv iota. rewrite P. reflexivity.
+Qed.
+
+Lemma process_conn_crash fx cap dbe el eu ch cm ts f inp tr buf rest :
+  take 64 inp = Ok (buf, rest) -> process_parse fx cap dbe el eu ch cm ts buf rest = Crash ->
+  snd (process_conn fx cap dbe el eu ch cm ts (S f) inp tr) = EndCrash.
+Proof. intros T P. cbn [process_conn]. rewrite T, P. reflexivity. Qed.
 
 (* EXECUTE frame with the property flag and no room for the property length *)
 Definition witness_cmd_offset : lcd := {| d_data := [2; 0; 0; 0; 5; 16]; d_stage := 0; d_type := 5; d_flag := 16 |}.
@@ -368,3 +395,156 @@ Section Isolation.
     - apply cget_cdel_other; auto.
   Qed.
 End Isolation.
+
+(* ================================================================================================ text converters *)
+Lemma arg_lt a i : i < alen a -> exists v, arg a i = Ok v.
+Proof.
+  unfold arg, alen. intros H. destruct (nth_error a (N.to_nat i)) eqn:E; eauto.
+  apply nth_error_None in E. lia.
+Qed.
+Lemma arg_ge a i : alen a <= i -> arg a i = Panic.
+Proof.
+  unfold arg, alen. intros H. destruct (nth_error a (N.to_nat i)) eqn:E; auto.
+  assert (nth_error a (N.to_nat i) <> None) by congruence. apply nth_error_Some in H0. lia.
+Qed.
+Lemma from_le a i : i <= alen a -> exists r, from a i = Ok r.
+Proof. unfold from. intros H. replace (i <=? alen a) with true by (symmetry; apply N.leb_le; auto). eauto. Qed.
+
+Ltac ok_arg a i :=
+  let v := fresh "w" in let E := fresh "E" in
+  destruct (arg_lt a i) as [v E]; [lia | rewrite E; cbn [bind]].
+
+(* ConvertArgs2Flag with the i+1 test never indexes outside args *)
+Lemma args2flag_fixed fx fuel a i c : fx_args2flag fx = true -> args2flag fx fuel a i c <> Panic.
+Proof.
+  intros F. revert i c. induction fuel as [|f IH]; intros i c; cbn [args2flag]; [discriminate|].
+  destruct (alen a <=? i) eqn:H; [discriminate|]. apply N.leb_gt in H.
+  ok_arg a i. rewrite F.
+  repeat match goal with
+  | |- (if is ?w ?k then _ else _) <> Panic => destruct (is w k)
+  end; try apply IH;
+  (destruct (alen a <=? i + 1) eqn:H1; [discriminate|]; apply N.leb_gt in H1;
+   ok_arg a (i + 1); destruct (parse_int _); [|discriminate];
+   first [ destruct (sec_time _) as [e m]; destruct m; apply IH
+         | destruct (msec_time_px _) as [e m]; apply IH
+         | destruct (msec_time _) as [e m]; apply IH ]).
+Qed.
+Lemma conv_flags_fixed fx a c : fx_args2flag fx = true -> conv_flags fx a c <> Panic.
+Proof. intros; apply args2flag_fixed; auto. Qed.
+
+Ltac flags_tail fx a k c :=
+  match goal with
+  | |- context [if ?n <? alen a then _ else _] =>
+      let H := fresh "H" in destruct (n <? alen a) eqn:H;
+      [ apply N.ltb_lt in H;
+        let r := fresh "r" in let E := fresh "E" in
+        destruct (from_le a k) as [r E]; [lia | rewrite E; cbn [bind]];
+        let CF := fresh "CF" in
+        destruct (conv_flags fx r c) eqn:CF; cbn [bind]; try discriminate;
+        exfalso; eapply conv_flags_fixed; eauto
+      | cbn [bind]; try discriminate ]
+  end.
+
+Section ConverterProofs.
+  Variable fx : tfixes.
+  Variable proto_timeout : N.
+  Variable now_s now_ms : Z.
+  Hypothesis F1 : fx_args2flag fx = true.
+  Hypothesis F2 : fx_setex_args fx = true.
+
+  Lemma conv_del_total a : conv_del a <> Panic.
+  Proof. unfold conv_del. destruct (alen a <? 2) eqn:H; [discriminate|]. apply N.ltb_ge in H. ok_arg a 1. discriminate. Qed.
+  Lemma conv_read_total a : conv_read a <> Panic.
+  Proof. unfold conv_read. destruct (alen a <? 2) eqn:H; [discriminate|]. apply N.ltb_ge in H. ok_arg a 1. discriminate. Qed.
+
+  Lemma conv_set_total a : conv_set fx proto_timeout a <> Panic.
+  Proof.
+    unfold conv_set. destruct (alen a <? 3) eqn:H; [discriminate|]. apply N.ltb_ge in H.
+    ok_arg a 1. ok_arg a 2.
+    match goal with |- context [conv_flags fx _ ?c] => flags_tail fx a 3 c end.
+  Qed.
+  Lemma conv_setnx_total a : conv_setnx fx proto_timeout a <> Panic.
+  Proof.
+    unfold conv_setnx. destruct (alen a <? 3) eqn:H; [discriminate|]. apply N.ltb_ge in H.
+    ok_arg a 1. ok_arg a 2.
+    match goal with |- context [conv_flags fx _ ?c] => flags_tail fx a 3 c end.
+  Qed.
+  Lemma conv_append_total a : conv_append fx a <> Panic.
+  Proof.
+    unfold conv_append. destruct (alen a <? 3) eqn:H; [discriminate|]. apply N.ltb_ge in H.
+    ok_arg a 1. ok_arg a 2.
+    match goal with |- context [conv_flags fx _ ?c] => flags_tail fx a 3 c end.
+  Qed.
+  Lemma conv_setex_total a : conv_setex fx a <> Panic.
+  Proof.
+    unfold conv_setex. rewrite F2. destruct (alen a <? 4) eqn:H; [discriminate|]. apply N.ltb_ge in H.
+    ok_arg a 1. ok_arg a 3. ok_arg a 2. destruct (parse_int w1); [|discriminate]. ok_arg a 0.
+    match goal with |- context [conv_flags fx _ ?c] => flags_tail fx a 4 c end.
+  Qed.
+  Lemma conv_incr_total neg a : conv_incr fx neg a <> Panic.
+  Proof.
+    unfold conv_incr. destruct (alen a <? 2) eqn:H; [discriminate|]. apply N.ltb_ge in H.
+    ok_arg a 1. destruct (2 <? alen a) eqn:H2.
+    - apply N.ltb_lt in H2. ok_arg a 2. destruct (parse_int w0); cbn [bind]; [|discriminate].
+      match goal with |- context [conv_flags fx _ ?c] => flags_tail fx a 4 c end.
+    - cbn [bind]. match goal with |- context [conv_flags fx _ ?c] => flags_tail fx a 3 c end.
+  Qed.
+  Lemma conv_expire_total a : conv_expire now_s now_ms a <> Panic.
+  Proof.
+    unfold conv_expire. destruct (alen a <? 3) eqn:H; [discriminate|]. apply N.ltb_ge in H.
+    ok_arg a 1. ok_arg a 2. destruct (parse_int w0); [|discriminate]. ok_arg a 0. discriminate.
+  Qed.
+
+  (* ConvertTextKeyOperateValueCommand for every argument list the handler can be called with: the text protocol
+     calls a handler only for a command name found in its table, and the name IS args[0], so args is not empty *)
+  Theorem convert_total a : a <> [] -> convert fx proto_timeout now_s now_ms a <> Panic.
+  Proof.
+    intros NE. unfold convert.
+    assert (0 < alen a) by (destruct a; [congruence | unfold alen; cbn; lia]).
+    ok_arg a 0.
+    repeat match goal with
+    | |- (if ?b then _ else _) <> Panic => destruct b
+    end;
+    first [ apply conv_del_total | apply conv_set_total | apply conv_setex_total | apply conv_setnx_total
+          | apply conv_append_total | apply conv_incr_total | apply conv_expire_total | apply conv_read_total | discriminate ].
+  Qed.
+End ConverterProofs.
+
+(* refutations for the unrepaired converters *)
+Definition A (l : list string) : args := map bytes_of l.
+Lemma args2flag_unfixed fx pt ns nms : fx_args2flag fx = false ->
+  convert fx pt ns nms (A ["SET"; "k"; "v"; "EX"]%string) = Panic.
+Proof. intros F. destruct fx as [a b c d]; cbn in F; subst a. destruct b, c, d; vm_compute; reflexivity. Qed.
+Lemma setex_unfixed fx pt ns nms : fx_setex_args fx = false ->
+  convert fx pt ns nms (A ["SETEX"; "k"; "10"]%string) = Panic.
+Proof. intros F. destruct fx as [a b c d]; cbn in F; subst b. destruct a, c, d; vm_compute; reflexivity. Qed.
+
+(* ------------------------------------------------------------------------------------------------ writers *)
+Lemma write_lock_result_ok n r : r < n -> write_lock_result n r <> Panic.
+Proof. unfold write_lock_result. intros H. replace (r <? n) with true by (symmetry; apply N.ltb_lt; auto). discriminate. Qed.
+Lemma write_lock_result_panics n r : n <= r -> write_lock_result n r = Panic.
+Proof. unfold write_lock_result. intros H. replace (r <? n) with false by (symmetry; apply N.ltb_ge; auto). reflexivity. Qed.
+
+Lemma write_append_fixed fx r vs al : fx_append_nil fx = true -> write_append_result fx r vs al <> Panic.
+Proof. intros F. unfold write_append_result. rewrite F. destruct (_ && _); [discriminate|]. destruct vs; discriminate. Qed.
+Lemma write_append_unfixed fx al : fx_append_nil fx = false -> write_append_result fx 0 None al = Panic.
+Proof. intros F. unfold write_append_result. rewrite F. reflexivity. Qed.
+
+Lemma scan_loop_fixed fx re fuel a i : fx_scan_args fx = true -> scan_loop fx re fuel a i <> Panic.
+Proof.
+  intros F. revert i. induction fuel as [|f IH]; intros i; cbn [scan_loop]; [discriminate|].
+  destruct (alen a <=? i) eqn:H; [discriminate|]. apply N.leb_gt in H. rewrite F. cbn [andb].
+  destruct (alen a <=? i + 1) eqn:H1; [discriminate|]. apply N.leb_gt in H1.
+  ok_arg a i. destruct (is (upper w) "MATCH").
+  - ok_arg a (i + 1). destruct (re w0); [apply IH | discriminate].
+  - destruct (is (upper w) "COUNT"); [|apply IH].
+    ok_arg a (i + 1). destruct (parse_int w0); [apply IH | discriminate].
+Qed.
+Theorem scan_args_fixed fx re a : fx_scan_args fx = true -> scan_args fx re a <> Panic.
+Proof.
+  intros F. unfold scan_args. destruct (alen a <? 1); [discriminate|].
+  destruct (2 <=? alen a) eqn:H; [|discriminate]. apply N.leb_le in H.
+  ok_arg a 1. destruct (parse_int w); [|discriminate]. apply scan_loop_fixed; auto.
+Qed.
+Lemma scan_args_unfixed fx re : fx_scan_args fx = false -> scan_args fx re (A ["SCAN"; "0"; "MATCH"]%string) = Panic.
+Proof. intros F. destruct fx as [a b c d]; cbn in F; subst d. destruct a, b, c; vm_compute; reflexivity. Qed.
